@@ -32,7 +32,8 @@ CC_CapStep == R(1, 2)
 (***************************************************************************)
 (* CF: containers with every container-level operation                     *)
 (***************************************************************************)
-CF_Remove == <<[n |-> "a", r |-> "-", what |-> "W"], [n |-> "a", r |-> "-", what |-> "solid"],
+CF_Remove == <<[n |-> "a", r |-> "-", what |-> "W"], [n |-> "a", r |-> "-", what |-> "solid"], [n |-> "a", r |-> "-", what |-> "liquid"],
+               [n |-> "b", r |-> "-", what |-> "solid"],
                [n |-> "b", r |-> "-", what |-> "liquid"], [n |-> "b", r |-> "-", what |-> "enzyme"],
                [n |-> "b", r |-> "-", what |-> "N"], [n |-> "c", r |-> "-", what |-> "D"]>>
 CF_Fill == <<[n |-> "a", r |-> "-", solvent |-> "W", u |-> "L"], [n |-> "a", r |-> "-", solvent |-> "D", u |-> "g"],
@@ -111,11 +112,12 @@ PL_FillDeltas == {One, R(-1, 2)}
 (***************************************************************************)
 Subst5 == {"W", "D", "N", "M", "E"}
 C5(w, d, n, m, e) == [W |-> w, D |-> d, N |-> n, M |-> m, E |-> e]
-SOL_Names == {"v", "v2", "vs", "z", "k1", "k2", "k3", "o"}
+SOL_Names == {"v", "v2", "vs", "vr", "z", "k1", "k2", "k3", "o"}
 SOL_Shape == [n \in SOL_Names |-> <<0, 0>>]
 SOL_Init == {[v  |-> Cont(Inf, C5(I(16), I(1), Zero, Zero, Zero)),    \* solvent container with a bystander (D)
               v2 |-> Cont(Inf, C5(I(12), Zero, Zero, I(1), Zero)),    \* solvent container with a dissolved solid (M)
               vs |-> Cont(Inf, C5(I(6), Zero, R(1, 2), Zero, Zero)),  \* diluent that already holds some solute (N)
+              vr |-> Cont(Inf, C5(I(4), Zero, I(2), Zero, Zero)),     \* "diluent" richer in solute than the stocks
               z  |-> Cont(Inf, C5(I(2), Zero, Zero, Zero, Zero)),     \* solvent container that is too small
               k1 |-> Cont(Inf, C5(I(10), Zero, I(2), Zero, Zero)),    \* binary stock
               k2 |-> Cont(Inf, C5(I(8), I(1), I(2), Zero, Zero)),     \* ternary stock
@@ -174,6 +176,8 @@ SOL_From(quick) ==
       src \in {"k1", "k2"}, y \in {R(1, 4), R(3, 2)}, nu \in {"mol", "g"}, du \in {"L", "g"}, tu \in {"L", "g"}}
   \cup {FR(src, "N", "vs", fx, y, nu, du, tu) :
       src \in {"k1", "k2"}, fx \in {R(1, 2), R(1, 4)}, y \in {R(1, 4), R(1, 2), R(3, 2)}, nu \in {"mol", "g"}, du \in {"L", "g"}, tu \in {"L", "g"}}
+  \cup {FR(src, "N", "vr", R(1, 2), y, nu, du, tu) :        \* the target lies between the stock's and the diluent's concentration
+      src \in {"k1", "k2"}, y \in {R(1, 4), R(1, 2)}, nu \in {"mol", "g"}, du \in {"L", "g"}, tu \in {"L", "g", "mol"}}
   \cup {FR("k2", "D", "W", R(1, 2), I(2), nu, du, "L") : nu \in {"mol", "L"}, du \in {"L", "mol"}}
   \cup {FR("v", "N", "W", R(1, 2), I(2), "mol", "L", "L")}     \* the source does not contain the solute
 SOL_FromQuick == SOL_From(TRUE)
